@@ -79,12 +79,20 @@ func (r Seq[T]) Take(n int) Seq[T] {
 	if len(r) < n {
 		return r
 	}
+	if n < 0 {
+		// like Iterator.Take : nothing to take
+		n = 0
+	}
 	return r[0:n]
 }
 
 func (r Seq[T]) Drop(n int) Seq[T] {
 	if len(r) < n {
 		return nil
+	}
+	if n < 0 {
+		// like Iterator.Drop : nothing to drop
+		n = 0
 	}
 	return r[n:]
 }
